@@ -2,6 +2,7 @@ import SedpackDriver.Util
 import SedpackDriver.Hash
 import SedpackDriver.Filler
 import SedpackDriver.Pool
+import SedpackDriver.Iter
 open Lean
 namespace Sedpack.Drv
 
@@ -10,6 +11,9 @@ def dispatch (m : String) (j : Json) : Except String Json :=
   | "hash" => hash j
   | "fill" => fill j
   | "pool" => pool j
+  | "sb" => sb j
+  | "rr" => rr j
+  | "batches" => batchesJ j
   | _ => .error s!"unknown model {m}"
 
 end Sedpack.Drv
